@@ -97,7 +97,7 @@ static void dg_padding_block(defgen_t *g, vrng *r, int last)
 {
 	uint8_t ll[288], dl[32]; uint16_t lc[288], dc[32]; dg_fixed_tables(ll, lc, dl, dc);
 	dg_pb(g, last, 1); dg_pb(g, 1, 2);
-	for (int i = 0; i < 96; i++) { int s = 'a' + vrn(r, 26); dg_pcode(g, lc[s], ll[s]); if (!g->fault_done && g->explen < g->max_out) g->exp[g->explen++] = (uint8_t) s; }
+	for (int i = 0; i < 96; i++) { int s = 'a' + vrn(r, 26); if (!g->fault_done) { if (g->explen >= g->max_out) break; g->exp[g->explen++] = (uint8_t) s; } dg_pcode(g, lc[s], ll[s]); }
 	dg_pcode(g, lc[256], ll[256]);
 }
 /* dynamic block; returns 0 */
@@ -153,7 +153,11 @@ static void dg_dynamic(defgen_t *g, vrng *r, int last, int fault)
 		cs[nc] = (uint8_t) v; cx[nc++] = 0; i++;
 	}
 	if (fault == DGF_REP_NOPREV) { memmove(cs + 1, cs, nc); memmove(cx + 1, cx, nc); cs[0] = 16; cx[0] = 0; nc++; }
-	if (fault == DGF_REP_OVERRUN) { cs[nc] = 18; cx[nc++] = 127; }
+	if (fault == DGF_REP_OVERRUN) {   /* the last code-length symbol becomes a 138-long zero run reaching beyond HLIT+HDIST */
+		int cov = cs[nc - 1] < 16 ? 1 : cs[nc - 1] == 18 ? 11 + cx[nc - 1] : 3 + cx[nc - 1];
+		if (cov >= 138 && nc > 1) nc--;
+		cs[nc - 1] = 18; cx[nc - 1] = 127;
+	}
 	for (int i = 0; i < nc; i++) clfreq[cs[i]]++;
 	int cu[19], ncu = 0; for (int i = 0; i < 19; i++) if (clfreq[i]) cu[ncu++] = i;
 	if (ncu == 1) { cu[ncu++] = cu[0] == 0 ? 1 : 0; }      /* keep the code-length code complete (two codes of 1 bit) */
